@@ -14,7 +14,7 @@ Import ListNotations.
 Require Import V.Kernel.Values V.Kernel.Fn V.Model.GroupBy V.Model.GroupByCase.
 Local Open Scope nat_scope.
 """
-KEYS = [None, ("KeyDiv", 2), ("KeyDiv", 1), ("TruthMod", 2, 0), ("NegKey",)]
+KEYS = [None, ("KeyDiv", 2), ("KeyDiv", 1), ("TruthMod", 2, 0), ("NegKey",), ("NoneIfMod", 2, 0), ("NoneIfMod", 3, 1), ("Const", None)]
 
 
 class CountSrc:
@@ -99,6 +99,78 @@ def run_std(items, key, ops):
     return obs
 
 
+class KeyFault(Exception):
+    pass
+
+
+FAULT_TYPES = [KeyFault, AttributeError, KeyError, TypeError, ValueError, LookupError]
+
+
+def fault_run(items, ops, where, k, exc):
+    """C06 for groupby: the source (where='src') or the key function (where='key') raises `exc` at its k-th use;
+    the operation during which that happens must raise that very object; before it asyncstdlib and itertools agree"""
+    def mk(lib):
+        n = {"src": 0, "key": 0}
+
+        def use(kind):
+            n[kind] += 1
+            if kind == where and n[kind] == k:
+                raise exc
+        if lib == "asl":
+            class S:
+                def __init__(s):
+                    s.items = list(items)
+
+                def __aiter__(s):
+                    return s
+
+                async def __anext__(s):
+                    use("src")
+                    if not s.items:
+                        raise StopAsyncIteration
+                    return s.items.pop(0)
+
+            async def key(x):
+                use("key")
+                return x.key // 2
+            return a.groupby(S(), key=key)
+
+        def gen():
+            for x in list(items):
+                use("src")
+                yield x
+            use("src")
+
+        def key(x):
+            use("key")
+            return x.key // 2
+        return itertools.groupby(gen(), key=key)
+
+    def drive_ops(lib):
+        gb = mk(lib)
+        groups, obs = [], []
+
+        async def go():
+            for op in ops:
+                try:
+                    if op[0] == "adv":
+                        kk, g = (await gb.__anext__()) if lib == "asl" else next(gb)
+                        groups.append(g)
+                        obs.append(("new", kk, len(groups) - 1))
+                    elif op[1] < len(groups):
+                        obs.append(("item", (await groups[op[1]].__anext__()) if lib == "asl" else next(groups[op[1]])))
+                    else:
+                        obs.append(("stop",))
+                except (StopAsyncIteration, StopIteration):
+                    obs.append(("stop",))
+                except BaseException as e:  # noqa
+                    obs.append(("raise", e is exc, type(e).__name__))
+                    return
+        drive(go())
+        return obs
+    return drive_ops("asl"), drive_ops("std")
+
+
 def coq_obs(o):
     if o[0] == "new":
         return "ONewGroup %s %d" % (coq_val(o[1]), o[2])
@@ -170,7 +242,7 @@ def run(tier, seed):
     cases.append((A, None, [("adv",), ("adv",), ("adv",), ("grp", 0), ("grp", 2), ("grp", 2), ("grp", 2)]))
     cases.append((A[:3], None, [("adv",), ("adv",), ("adv",), ("grp", 0), ("grp", 1)]))
     cases.append((A, ("KeyDiv", 2), [("adv",), ("grp", 0), ("adv",), ("grp", 0), ("grp", 1), ("adv",), ("grp", 1)]))
-    nrand = 1500 if tier == "quick" else 40000
+    nrand = 1500 * common.scale(rep) if tier == "quick" else 40000
     for _ in range(nrand):
         cases.append(gen_case(rng, tier, with_close=rng.random() < 0.3))
     small = [[Obj(i + 1, k) for i, k in enumerate(ks)] for n in range(0, 5) for ks in itertools.product(range(2), repeat=n)]
@@ -208,6 +280,26 @@ def run(tier, seed):
             "; ".join(coq_val(x) for x in items), coq_opt(key, coq_fn), "; ".join(coq_op(o) for o in ops),
             "; ".join(coq_obs(o) for o in obs), pulls, closes,
             "None" if std is None else "(Some [%s])" % "; ".join(coq_obs(o) for o in std)))
+    # errors from the source or the key function surface unchanged where itertools.groupby would raise (C06 for groupby)
+    for _ in range(300 * common.scale(rep) if tier == "quick" else 6000):
+        items, key, ops = gen_case(rng, tier, with_close=False)
+        where = rng.choice(["src", "key"])
+        k = rng.randrange(1, len(items) + 3)
+        exc = rng.choice(FAULT_TYPES)("injected")
+        oa, os_ = fault_run(items, ops, where, k, exc)
+        rep.count(("fault", repr(items), tuple(ops), where, k, type(exc).__name__), True)
+        bad = None
+        fired_std = os_ and os_[-1][0] == "raise"
+        if fired_std:
+            if not (oa and oa[-1][0] == "raise" and oa[-1][1]) or len(oa) != len(os_):
+                bad = "itertools.groupby raises the injected %s at operation %d; asyncstdlib: %r" % (type(exc).__name__, len(os_) - 1, oa[-2:])
+            elif not builtins.all(same_obs(x, y) for x, y in builtins.zip(oa[:-1], os_[:-1])):
+                bad = "observations before the fault differ: %r vs %r" % (oa, os_)
+        elif oa and oa[-1][0] == "raise" and not oa[-1][1]:
+            bad = "asyncstdlib raised a different exception: %r" % (oa[-1],)
+        if bad:
+            fails += 1
+            rep.violation("groupby:fault", {"items": repr(items), "ops": ops, "fault": [where, k, type(exc).__name__], "why": bad})
     rep.notes["ops_length_distribution"] = lens
     shards = [texts[i:i + 500] for i in range(0, len(texts), 500)]
     outs = coq_eval_files("c16", [HEADER + "Definition cases : list gcase := [\n" + ";\n".join(sh) + "\n].\nEval vm_compute in (gfailing cases).\n" for sh in shards])
